@@ -183,6 +183,11 @@ class Model:
 
     def _l_add_vertex(self, op):
         _, l, v = op
+        if v is None:
+            if l not in self.L:
+                return SKIP
+            self.L[l]["verts"].append(None)
+            return Expect("open")
         if v not in self.V or l not in self.L:
             return SKIP
         already = v in self.L[l]["verts"]
